@@ -220,8 +220,8 @@ int main(int argc, char** argv) {
     if (opt.thorough()) shapes = { { 3, 3, S5 }, { 2, 4, S6 }, { 2, 5, S4 }, { 1, 7, S6 } };   // 3x3 over all six symbols (1.15e9 tables x 66 types) does not fit the budget
     else shapes = { { 3, 2, S6 }, { 2, 3, S6 }, { 3, 3, S4 }, { 1, 5, S6 } };
     (void)S3;
-    const size_t mcap = static_cast<size_t>(opt.num("mutcap", opt.thorough() ? 1024 : 128));
-    const size_t mcells = static_cast<size_t>(opt.num("mutcells", opt.thorough() ? 96 : 40));
+    const size_t mcap = static_cast<size_t>(opt.num("mutcap", opt.thorough() ? 256 : 128));
+    const size_t mcells = static_cast<size_t>(opt.num("mutcells", opt.thorough() ? 64 : 40));
     const std::string part = opt.str("part", "all");
     res.rep = run_sharded(opt, "malformed", [&](Ctx& c) {
       if (part != "mutants") run_malformed_raw(c, types, shapes);
